@@ -843,14 +843,15 @@ def _run(ctx):
         for w in wsel:
             for p in pts:
                 cases.append((rname, [w], [p]))
+        def boundary(p):   # quick tier, additional run shapes: lock operation boundaries and unlocked accesses only
+            ev = base_events[rname][p] if p < len(base_events[rname]) else ('end', '', False)
+            return ctx.tier == 'thorough' or ev[0] in ('before-acq', 'acq', 'rel', 'end') or not ev[2]
         # a commit followed by a complete second request of the same family, at every yield point (overlap inside the handler)
         fam = rname.split('_')[0]
         for w in COMPOUND:
             if ctx.tier == 'thorough' or w.lower().startswith('committhen' + fam.lower()):
-                for p in pts:
-                    ev = base_events[rname][p] if p < len(base_events[rname]) else ('end', '', False)
-                    if ctx.tier == 'thorough' or ev[0] in ('before-acq', 'acq', 'rel', 'end') or not ev[2]:
-                        cases.append((rname, [w], [p]))
+                for p in filter(boundary, pts):
+                    cases.append((rname, [w], [p]))
         if rname in TOGGLED:
             # the selection itself changes: every yield point x every phase (create / add state / remove)
             for p in pts:
@@ -860,7 +861,7 @@ def _run(ctx):
         if rname.startswith(('getMdState', 'getContextStates')) or ctx.tier == 'thorough':
             for w in (ENTITY_WRITERS if ctx.tier == 'thorough' else rng.sample(ENTITY_WRITERS, 2)):
                 if w not in wsel:
-                    for p in pts:
+                    for p in filter(boundary, pts):
                         cases.append((rname, [w], [p]))
         # a transaction that is already OPEN (fetched its objects, holds the locks) when the request arrives and commits at
         # the yield point: on a correctly locked handler the request waits; every yield point is tried
@@ -868,7 +869,7 @@ def _run(ctx):
         if ctx.tier != 'thorough':
             osel = rng.sample(osel, min(len(osel), 2 if rname.startswith('getContextStates') else 1))
         for w in osel:
-            for p in pts[1:]:
+            for p in filter(boundary, pts[1:]):
                 cases.append((rname, [w], [p], [True]))
         # two transactions in one request (three threads)
         pairs = list(itertools.combinations_with_replacement(pts, 2))
